@@ -30,6 +30,10 @@ structure JCase where
   chainLen : Nat := 0
   active : Bool := false
   groups : List (String × String) := []               -- conflict groups seen so far: id ↦ final tasks
+  lastReps : List (Nat × Nat × Nat × String) := []    -- the most recent complete dump (for the end-of-case predicates)
+  lastPends : List (Nat × List SyncOp) := []
+  lastChain : List String := []
+  dumps : Nat := 0
 
 def afterPrefix (s : String) (p : String) : Option String :=
   if s.startsWith p then some (s.drop p.length).toString else none
@@ -37,7 +41,7 @@ def afterPrefix (s : String) (p : String) : Option String :=
 def parseKV (tok : String) (k : String) : Option Nat :=
   (afterPrefix tok (k ++ "=")).bind String.toNat?
 
-def judgeCase (c : JCase) : List String :=
+def judgeDump (c : JCase) (final : Bool) : List String :=
   -- decode the chain with the model's reader
   let decoded := c.chainTxt.map fun t => Json.decodeVersion t.toList
   let chain : List (List SyncOp) := decoded.map fun d => d.getD []
@@ -49,7 +53,7 @@ def judgeCase (c : JCase) : List String :=
   let keys := sortDedup (allOps.flatMap opKeys)
   let n := chain.length
   let replayTxt := canonDB uuids keys (cs chain n)
-  let conv := c.reps.filterMap fun (r, base, nops, tasks) =>
+  let conv := if !final then [] else c.reps.filterMap fun (r, base, nops, tasks) =>
     if base ≠ n ∨ nops ≠ 0 then some s!"converged not-quiescent rep{r} base={base} nops={nops} tip={n}"
     else if tasks ≠ replayTxt then some s!"converged diverged rep{r} has={tasks} replay={replayTxt}"
     else none
@@ -58,7 +62,10 @@ def judgeCase (c : JCase) : List String :=
     | none => none
     | some (_, pend) =>
       let expect := canonDB uuids keys (applyL (cs chain base) pend)
-      if tasks ≠ expect then some s!"invariant broken rep{r} has={tasks} base⊕pending={expect}" else none
+      if tasks ≠ expect then some s!"invariant broken rep{r} has={tasks} base⊕pending={expect}"
+      else if !(decide (validL (cs chain base) pend)) then
+        some s!"invariant pending-invalid rep{r} base={base} pending={pend.map opToks}"
+      else none
   let snaps := c.snaps.filterMap fun (v, db) =>
     let expect := canonDB uuids keys (cs chain v)
     if v > n then some s!"snapshot for-unknown-version v{v}"
@@ -67,7 +74,7 @@ def judgeCase (c : JCase) : List String :=
     match Json.decodeVersion t.toList with
     | none => some s!"wire undecodable-request {shorten t}"
     | some ops => if String.ofList (Json.printVersion ops) == t then none else some s!"wire not-canonical-request {shorten t}"
-  c.fails ++ badDecode ++ reenc ++ conv ++ inv ++ snaps ++ sent
+  badDecode ++ reenc ++ conv ++ inv ++ snaps ++ sent
 
 def groupOf (hdr : String) : Option String :=
   (hdr.splitOn " ").findSome? fun t => afterPrefix t "group="
@@ -75,7 +82,7 @@ def groupOf (hdr : String) : Option String :=
 /-- order independence (C03): all cases of one group — the same concurrent changes synchronized
     in different orders — must end in the same tasks -/
 def orderCheck (c : JCase) : List String × List (String × String) :=
-  match groupOf c.hdr, c.reps.head? with
+  match groupOf c.hdr, c.lastReps.head? with
   | some g, some (_, _, _, tasks) =>
     match c.groups.find? (·.1 == g) with
     | some (_, t0) => if t0 == tasks then ([], c.groups) else ([s!"orderindep differs this-order={tasks} other-order={t0}"], c.groups)
@@ -90,7 +97,9 @@ def briefWords (s : String) : String :=
 def flushCase (c : JCase) : List String :=
   if !c.active then []
   else
-    match judgeCase c ++ (orderCheck c).1 with
+    let final := judgeDump { c with reps := c.lastReps, pends := c.lastPends, chainTxt := c.lastChain, snaps := [], sent := [] } true
+    let nodump := if c.dumps == 0 then ["parse no-dump"] else []
+    match c.fails ++ final ++ nodump ++ (orderCheck c).1 with
     | [] => [s!"judge {c.hdr} :: ok"]
     | fs => fs.map fun f => s!"judge {c.hdr} :: FAIL {briefWords f}"
 
@@ -107,6 +116,8 @@ def avPayload (line : String) : Option String :=
 def judgeLine (c : JCase) (line : String) : JCase × List String :=
   if line.startsWith "# case" then
     ({ hdr := line, active := true, groups := (orderCheck c).2 }, flushCase c)
+  else if line.startsWith "rep " && line.endsWith " busy" then (c, [])
+  else if line.startsWith "pend " && line.endsWith " busy" then (c, [])
   else if line.startsWith "rep " then
     match line.splitOn " " with
     | "rep" :: r :: b :: n :: rest =>
@@ -132,9 +143,13 @@ def judgeLine (c : JCase) (line : String) : JCase × List String :=
     | ["as", v, db] => ({ c with snaps := c.snaps ++ [(v.toNat?.getD 0, db)] }, [])
     | _ => ({ c with fails := c.fails ++ [s!"parse bad-as-line {line}"] }, [])
   else if line.startsWith "snap " then
-    match line.splitOn " " with
-    | ["snap", v, db] => ({ c with snaps := c.snaps ++ [(v.toNat?.getD 0, db)] }, [])
-    | _ => (c, [])
+    -- the last line of a dump: judge the mid-history predicates now, keep the dump for the end
+    let c := match line.splitOn " " with
+      | ["snap", v, db] => { c with snaps := c.snaps ++ [(v.toNat?.getD 0, db)] }
+      | _ => c
+    let fs := judgeDump c false
+    ({ c with fails := c.fails ++ fs, lastReps := c.reps, lastPends := c.pends, lastChain := c.chainTxt,
+              reps := [], pends := [], chainTxt := [], snaps := [], sent := [], dumps := c.dumps + 1 }, [])
   else if line.startsWith "av " then
     match avPayload line with
     | some p => if p.startsWith "<len=" then (c, []) else ({ c with sent := c.sent ++ [p] }, [])
